@@ -448,7 +448,19 @@ impl<const K: usize> Complement for Kmer<codec::dna::Dna, K, usize> {}
 
 impl<A: Codec, const K: usize> ReverseMut for Kmer<A, K, usize> {
     fn rev(&mut self) {
-        self.rev_blocks_2();
+        if A::BITS == 2 {
+            self.rev_blocks_2();
+        } else {
+            // the block table only reverses 2-bit symbols: reverse all live bits, then
+            // restore the bit order inside each symbol (as `Seq::rev` does)
+            let mut ba = sealed::KmerStorage::to_bitarray(self.bs);
+            let bs: &mut Bs = &mut ba.as_mut()[..Self::BITS];
+            bs.reverse();
+            for chunk in bs.rchunks_exact_mut(A::BITS as usize) {
+                chunk.reverse();
+            }
+            self.bs = sealed::KmerStorage::from_bitslice(bs);
+        }
     }
 }
 
